@@ -722,11 +722,13 @@ func (e *vC19Env) doWrite(in *vC19Inst, wp, mode string, wins bool, tok *vC19Tok
 	return 0, ""
 }
 
-// realTree projects the stored revision tree into model numbering: parents (99 = not a model revision), winner index.
-func (e *vC19Env) realTree(in *vC19Inst) ([]int, int) {
+// realTree projects the stored revision tree into model numbering: parents (99 = not a model revision), winner index,
+// tombstoned revisions.
+func (e *vC19Env) realTree(in *vC19Inst) ([]int, int, []int) {
+	tomb := []int{}
 	doc, err := e.coll.GetDocument(e.rt.Context(), in.docID, db.DocUnmarshalSync)
 	if err != nil || doc == nil {
-		return []int{}, 0
+		return []int{}, 0, tomb
 	}
 	idx := map[string]int{}
 	for i, r := range in.revIDs {
@@ -738,6 +740,9 @@ func (e *vC19Env) realTree(in *vC19Inst) ([]int, int) {
 		if !ok {
 			tree = append(tree, 99)
 			continue
+		}
+		if info.Deleted {
+			tomb = append(tomb, idx[r])
 		}
 		p := 0
 		if info.Parent != "" {
@@ -751,7 +756,7 @@ func (e *vC19Env) realTree(in *vC19Inst) ([]int, int) {
 	for i := len(in.revIDs); i < len(doc.History); i++ {
 		tree = append(tree, 99) // revisions the model does not know about
 	}
-	return tree, idx[doc.GetRevTreeID()]
+	return tree, idx[doc.GetRevTreeID()], tomb
 }
 
 var vC19ResvProps = map[string]string{
@@ -865,14 +870,27 @@ func (e *vC19Env) runWrites(in *vC19Inst) {
 				}
 				in.revIDs = append(in.revIDs, rev)
 			}
-			rtree, rcur := e.realTree(in)
+			rtree, rcur, rtomb := e.realTree(in)
 			in.events = append(in.events, vObj{"a": st.Act, "wp": st.Wp, "wins": st.Wins, "tok": st.Tok, "status": status, "acc": acc,
-				"tree": rtree, "cur": rcur, "tokId": tok.ID})
+				"tree": rtree, "cur": rcur, "tomb": rtomb, "tokId": tok.ID})
 			if acc {
 				tree, cur = rtree, rcur
 			} else if si == 0 {
 				in.dead = true
 				return
+			}
+		case "TombstoneWinner":
+			// DELETE of the winning leaf: the other leaf is promoted to current (its body moves back into the document)
+			resp := e.send("DELETE", "/"+e.ks+"/"+in.docID+"?rev="+url.QueryEscape(in.revIDs[cur-1]), "")
+			acc := resp.Code == 200
+			if acc {
+				in.revIDs = append(in.revIDs, vC19RevField(resp.Body.Bytes(), "rev"))
+			}
+			rtree, rcur, rtomb := e.realTree(in)
+			in.events = append(in.events, vObj{"a": st.Act, "wp": st.Wp, "wins": false, "tok": st.Tok, "status": resp.Code, "acc": acc,
+				"tree": rtree, "cur": rcur, "tomb": rtomb, "tokId": ""})
+			if acc {
+				tree, cur = rtree, rcur
 			}
 		case "WriteReserved":
 			ev := e.doReserved(in, st.Wp, st.Cls, tree, cur, si+1)
@@ -1404,7 +1422,9 @@ func TestVerif_C19_BodyPaths(t *testing.T) {
 	wpSet, rpSet := map[string]bool{}, map[string]bool{}
 	for _, b := range behs {
 		for _, st := range b.Steps {
-			wpSet[st.Wp] = true
+			if st.Act != "TombstoneWinner" {
+				wpSet[st.Wp] = true
+			}
 		}
 		for _, c := range b.Reads {
 			rpSet[c.Rp] = true
